@@ -108,7 +108,9 @@ def sessions(c, p, count):
             cost += 0.5 + (len(ad) + 2 * total) / 40.0
             if rng.random() < 0.3:   # re-init a used object: must behave like a fresh one
                 k = pattern(rng, klen); n = pattern(rng, 16)
-                for o in (1, 2): lines.append('inc.init scheme=%s obj=%d re=1 k=%s n=%s' % (sc, o, hx(k), hx(n)))
+                how = rng.choice(['both', 'both', 'nnull', 'knull', 'nself'])       # NULL nonce / NULL key = all zero; the state's own nonce field = keep it
+                arg = {'both': 'k=%s n=%s' % (hx(k), hx(n)), 'nnull': 'k=%s n=- nnull=1' % hx(k), 'knull': 'k=- n=%s knull=1' % hx(n), 'nself': 'k=%s n=- nself=1' % hx(k)}[how]
+                for o in (1, 2): lines.append('inc.init scheme=%s obj=%d re=1 %s' % (sc, o, arg))
         lines += ['inc.free scheme=%s obj=1' % sc, 'inc.free scheme=%s obj=2' % sc]
         p.case(lines, cost=cost); c.distinct([('session', sc, i)])
 
@@ -125,6 +127,7 @@ def run(c):
     sessions(c, p, 600 if th else 45)
     hkdf_cases(c, p)
     twins(c, p)
+    inplace_inside_block(c, p)
     c.assumptions += ['the partition space is exhausted on the symbolic models (all chunk lengths 0..bound, bound = 2 blocks + 5; copy/duplex 1 block + 5); the real library is driven through every (count, call length) transition class and seeded random histories',
                       'byte VALUES are sampled']
     c.tv(p, 'rel', 'chunk', max_cost=25.0)
@@ -135,6 +138,25 @@ def run(c):
             c.tv(p, fl, 'chunk', max_cost=25.0)
     c.cov['exhaustive'] = True
     c.cov['rule'] = 'MC: all call sequences within bounds; TV: one case per (kind, count, chunk length) transition + random walks with copies/pad/duplex/re-init + AEAD sessions with independent enc/dec chunkings'
+
+def inplace_inside_block(c, p):
+    """incremental AEAD with input and output the same memory, cut so that calls begin and end strictly inside a rate
+    block, reach its end exactly, and run over it - for encryption and decryption"""
+    rng = c.rng
+    for sc, klen, rate in [('aead128', 16, 8), ('aead128a', 16, 16), ('aead80pq', 20, 8)]:
+        for cuts in ([3, 2, 1, 1, rate, 2, 0, 5], [1] * (rate + 3), [rate - 1, 1, 1, rate - 2, 3], [2, rate, 1, 2 * rate + 1, 1]):
+            k = pattern(rng, klen); n = pattern(rng, 16); ad = pattern(rng, rng.choice([0, 5]))
+            lines = ['inc.init scheme=%s obj=1 k=%s n=%s' % (sc, hx(k), hx(n)), 'inc.init scheme=%s obj=2 k=%s n=%s' % (sc, hx(k), hx(n)),
+                     'inc.start scheme=%s obj=1 ad=%s' % (sc, hx(ad))]
+            first = True
+            for n_ in cuts:
+                lines.append('inc.enc scheme=%s obj=1 in=%s inplace=1 save=ct%s' % (sc, hx(pattern(rng, n_, 'rand')), '' if first else '+')); first = False
+            lines += ['inc.encfin scheme=%s obj=1 save=tag' % sc, 'inc.start scheme=%s obj=2 ad=%s' % (sc, hx(ad))]
+            off = 0
+            for n_ in reversed(cuts):
+                lines.append('inc.dec scheme=%s obj=2 in=@ct:%d:%d inplace=1' % (sc, off, n_)); off += n_
+            lines += ['inc.decfin scheme=%s obj=2 tag=@tag' % sc, 'inc.free scheme=%s obj=1' % sc, 'inc.free scheme=%s obj=2' % sc]
+            p.case(lines, cost=1.5); c.distinct([(sc, 'inplace', tuple(cuts))])
 
 def twins(c, p):
     """the one-shot calls the incremental interfaces are compared with (both sides are judged against the same
